@@ -137,6 +137,35 @@ def compute_ref(spec):
             'seq': seq}
 
 
+def read_xml_reports(folder):
+    """every report file parsed with a strict XML parser (expat); pure
+    observation: well-formed or not, suite attributes, testcase elements"""
+    import shutil
+    from xml.etree import ElementTree as ET
+    out = []
+    rdir = os.path.join(folder, 'testreports')
+    for fn in sorted(os.listdir(rdir)) if os.path.isdir(rdir) else []:
+        rec = {'file': fn, 'wellformed': True, 'err': '', 'attrs': {}, 'cases': []}
+        try:
+            with open(os.path.join(rdir, fn), 'rb') as f:
+                root = ET.fromstring(f.read())
+            rec['attrs'] = {k: root.get(k, '') for k in ('tests', 'errors', 'failures', 'name')}
+            rec['root'] = root.tag
+            for tc in root.iter('testcase'):
+                rec['cases'].append({'classname': tc.get('classname', ''),
+                                     'name': tc.get('name', ''),
+                                     'children': [ch.tag for ch in tc],
+                                     'messages': [ch.get('message', '') for ch in tc]})
+            rec['n_error'] = len(list(root.iter('error')))
+            rec['n_failure'] = len(list(root.iter('failure')))
+        except ET.ParseError as e:
+            rec['wellformed'] = False
+            rec['err'] = str(e)
+        out.append(rec)
+    shutil.rmtree(folder, ignore_errors=True)
+    return out
+
+
 def run_job(job, scratch):
     if job.get('ref_only'):
         return {'id': job['id'], 'ref': compute_ref(job['world'])}
@@ -170,6 +199,9 @@ def run_job(job, scratch):
             world = worldlib.World(spec, log)
             log.emit('ProcStart', role='parent', resume='')
             args = ['zt'] + list(job['args'])
+            if job.get('xml'):
+                job['xml'] = os.path.join(scratch, 'xmlout')
+                args += ['--xml', job['xml']]
             runner = Runner(args=args, found_suites=[world.suite],
                             script_parts=[os.path.join(HERE, 'boot', 'zt.py')],
                             cwd=scratch, warnings=job.get('warnings'))
@@ -220,6 +252,8 @@ def run_job(job, scratch):
         out.close()
         err.close()
     res['events'] = log.mem
+    if job.get('xml'):
+        res['xml_files'] = read_xml_reports(job['xml'])
     # hygiene between jobs
     gc.set_threshold(700, 10, 10)
     gc.set_debug(0)
